@@ -54,7 +54,8 @@ impl Frame {
         let (size, source) = socket.recv_from(&mut buf).await?;
         buf.truncate(size);
         self.body = buf.freeze();
-        self.addr = Some(source.into());
+        // a dual-stack socket reports an IPv4 peer as ::ffff:a.b.c.d: label the datagram with the IPv4 address
+        self.addr = Some(super::try_map_v4_addr(source).into());
         Ok((size, source))
     }
 
